@@ -24,6 +24,8 @@ GROUPS = {
     "PinsSched": ["PinSchedulerText"],
     # subscription.rs / subscriber.rs / observer.rs wholesale (C17, C02, C15)
     "PinsCore": ["PinSubscriptionText", "PinSubscriberText", "PinObserverText"],
+    # subject.rs / behavior_subject.rs wholesale, on top of their semantic ties (C06, C12); start.rs (C03)
+    "PinsSubject": ["PinSubjectText", "PinBehaviorSubjectText", "PinStartText"],
 }
 # groups of which only the items whose NAME matches are pinned (no count theorem then)
 ONLY = {"PinSchedulerText": r"macro impl_scheduler_method|fn remote_handle|macro \w*_spawn|impl Scheduler < T > for|trait Scheduler|fn new_timer"}
